@@ -39,6 +39,10 @@ TRUSTED = [
     "harness/epr.py: InProcConnection decodes the serialized host messages and drives the executor in-process",
 ]
 ASSUMPTIONS = [
+    "response fields are integers of ANY size (value-range classes 0, 1, 2^31-1, 2^31, 2^32-1, 2^32, 5*10^9, "
+    "2^63-1 are drawn for goodness, goodness time, sequence number, create id); the model stores unbounded Int. "
+    "Observation: qlink-interface types `goodness` as float, but a float stored in a result array makes "
+    "Future.value raise (\"future value 0.5 is not an int or None\") — integer goodness is a precondition",
     "API objects may be reused: one EPRSocket object attached to several connections (successively or alive "
     "at once); the remote node id must be the one of the CURRENT connection's network",
     "the network stack assigns purpose ids as a function of (remote node id, local socket id); the harness stack "
@@ -147,8 +151,14 @@ def run(ctx):
         if out["handles"]:
             res.nontrivial.add(json.dumps({"inp": inp, "fields": fields}, sort_keys=True))
             res.count("handles:" + kind)
-            m = ctx.driver.call({"op": "eprreq.handles", "kind": kind, "rs": fields})
+            allint = all(isinstance(x, int) for f in fields for x in f)
+            if not allint:
+                res.count("float-goodness")
+            # the model stores unbounded integers (any value the link layer sends); floats: oracle only
+            m = ctx.driver.call({"op": "eprreq.handles", "kind": kind, "rs": fields}) if allint else {}
             mv = {(i, a): v for i, a, v in (m.get("vals") or [])}
+            if any(x >= 2 ** 31 for f in fields for x in f if isinstance(x, int)):
+                res.count("response-field>=2^31")
             spec = KEEP_SPEC if kind == "keep" else MEAS_SPEC
             for i, attr, v in out["handles"]:
                 if attr in ("measurement_basis_local", "measurement_basis_remote"):
@@ -158,7 +168,7 @@ def run(ctx):
                         res.failures.append({"what": "%s of pair %d is %s, requested %s" % (attr, i, v, want),
                                              "kf": None, "input": inp})
                     continue
-                if attr != "bell_state" and mv.get((i, attr)) != v:
+                if allint and attr != "bell_state" and mv.get((i, attr)) != v:
                     res.disagreements.append({"stream": "eprreq.handles", "input": {**inp, "fields": fields},
                                               "model": [i, attr, mv.get((i, attr))], "code": [i, attr, v]})
                 want = _resp_field(resps[i], spec[attr])
@@ -168,10 +178,11 @@ def run(ctx):
                                          "input": {**inp, "fields": fields}})
         if out["entinfo"]:
             res.count("entanglement_info")
-            m = ctx.driver.call({"op": "eprreq.handles", "kind": "entinfo", "rs": fields})
+            allint = all(isinstance(x, int) for f in fields for x in f)
+            m = ctx.driver.call({"op": "eprreq.handles", "kind": "entinfo", "rs": fields}) if allint else {}
             mv = {(i, a): v for i, a, v in (m.get("vals") or [])}
             for i, f, v in out["entinfo"]:
-                if mv.get((i, f)) != v:
+                if allint and mv.get((i, f)) != v:
                     res.disagreements.append({"stream": "eprreq.handles(entinfo)", "input": {**inp, "fields": fields},
                                               "model": [i, f, mv.get((i, f))], "code": [i, f, v]})
                 want = _resp_field(resps[i], f)
@@ -195,6 +206,12 @@ def run(ctx):
     for c in hw_cases:
         res.evaluations += 1
         _check_hw(ctx, res, H, c)
+    # ---- several create requests in ONE subroutine (no flush in between) that differ in exactly one
+    # argument, each argument in turn: request k as received by the stack == what call k asked for
+    for _ in range(1500 if ctx.thorough else 300):
+        pc = H.gen_pair_case(rng)
+        res.evaluations += 1
+        _check_pair(ctx, res, H, pc)
     # ---- API objects reused across connections: one EPRSocket object on several connections (successive
     # or alive at once) whose networks place the remote party on different nodes
     for _ in range(1200 if ctx.thorough else 250):
@@ -341,6 +358,39 @@ def _check_qlink_layer(ctx, res, H, rng, n):
                 break
 
 
+def _check_pair(ctx, res, H, pc):
+    out = H.run_pair_case(pc)
+    inp = {"pair_case": pc}
+    res.count("one-subroutine-requests:vary-" + pc["varied"])
+    if out["raised"]:
+        res.failures.append({"what": "several create calls in one subroutine raised " + out["raised"], "kf": None,
+                             "input": inp})
+        return out
+    if out["stuck"]:
+        res.failures.append({"what": "several create calls in one subroutine: a request never completed",
+                             "kf": None, "input": inp})
+        return out
+    if len(out["requests"]) != len(pc["cases"]):
+        res.failures.append({"what": "the stack received %d requests for %d calls" % (len(out["requests"]),
+                                                                                       len(pc["cases"])),
+                             "kf": None, "input": inp})
+        return out
+    res.nontrivial.add(json.dumps(pc, sort_keys=True))
+    for k, (c, real) in enumerate(zip(pc["cases"], out["requests"])):
+        m = ctx.driver.call({"op": "eprreq.request", **H.model_params(c)})
+        if m.get("expected") != real:
+            diff = [[a, b] for a, b in zip(m.get("expected") or [], real) if a != b]
+            res.failures.append({"what": "request %d of %d in one subroutine (calls differ in %s): the stack "
+                                         "received %s" % (k, len(pc["cases"]), pc["varied"], diff[:3]),
+                                 "kf": None, "input": {**inp, "request": k, "expected": m.get("expected"), "got": real}})
+            break
+        if m.get("req") != real:
+            res.disagreements.append({"stream": "eprreq.request (one subroutine)", "input": inp, "model": m.get("req"),
+                                      "code": real})
+            break
+    return out
+
+
 def _check_reuse(res, H, rc):
     out = H.run_reuse_case(rc)
     inp = {"reuse_case": rc}
@@ -434,6 +484,12 @@ def replay(ctx, payload):
         res = Result()
         _check_qlink_layer(ctx, res, H, ctx.rng, 300)
         for f in res.failures[:3]:
+            print("FAIL:", f["what"])
+        return 1 if res.failures else 0
+    if "pair_case" in inp:
+        res = Result()
+        _check_pair(ctx, res, H, inp["pair_case"])
+        for f in res.failures:
             print("FAIL:", f["what"])
         return 1 if res.failures else 0
     if "reuse_case" in inp:
